@@ -13,7 +13,7 @@ import ast
 from dataclasses import dataclass, field
 from typing import Any, Callable, Dict, List, Optional, Tuple
 
-from sa.core import walk_no_nested, AnalysisError, ClassInfo, FuncInfo, ModuleInfo, Program, src
+from sa.core import walk_no_nested, AnalysisError, ClassInfo, FuncInfo, ModuleInfo, Program, dotted, src
 
 
 class Unmodelled(AnalysisError):
@@ -204,6 +204,8 @@ class Interp:
             it = self.eval(st.iter, env, f)
             if isinstance(it, dict):
                 it = list(it.keys())
+            if isinstance(it, str) or type(it).__name__ in ("dict_keys", "dict_values", "dict_items", "range", "enumerate", "zip", "reversed", "list_iterator"):
+                it = list(it)
             if not isinstance(it, (list, tuple, set, frozenset)):
                 raise Unmodelled(f"{f.qualname}:{st.lineno} for over non-finite iterable")
             broke = False
@@ -597,6 +599,8 @@ class Interp:
 
     def call_expr(self, e: ast.Call, env: Dict[str, Any], f: FuncInfo) -> Any:  # noqa: C901
         fn = e.func
+        if (dotted(fn) in ("cast", "typing.cast")) and len(e.args) == 2 and "cast" not in env and f.module.imports.get("cast", "typing.cast").startswith("typing"):
+            return self.eval(e.args[1], env, f)  # typing.cast(T, v) is v; T is a type expression, not evaluated
         if isinstance(fn, ast.Name) and fn.id == "isinstance" and fn.id not in env and len(e.args) == 2:
             args = [self.eval(e.args[0], env, f), None]
         else:
